@@ -177,6 +177,68 @@ def _specialise(facts, ret, caps):
     return ret
 
 
+def _closure_of(e):
+    """closure literal behind fn-pointer coercions / references"""
+    while isinstance(e, tuple) and e and e[0] in ("cast", "path", "ref"):
+        e = e[2] if e[0] == "cast" else e[1]
+    if isinstance(e, tuple) and len(e) > 3 and e[0] == "agg" and e[1] == "closure":
+        return e[3]
+    return None
+
+
+def _factory_closure(facts, ke):
+    """`rows.sort_by(ascending(|p| p.lat))`: the comparator is the closure a crate function returns, and that closure calls the
+    key function it captured. -> the closure's return expression with every call through the captured function pointer replaced
+    by that function's own return expression, or None if the shape is anything else"""
+    from ..mirq import _subst_args, inline_expr
+    fb = facts.bodies[ke[1]]
+    fret = expr_place(DefUse(fb), {"local": 0, "proj": []})
+    if not (isinstance(fret, tuple) and len(fret) > 3 and fret[0] == "agg" and fret[1] == "closure" and fret[3] in facts.bodies):
+        return None
+    cb = facts.bodies[fret[3]]
+    cdu = DefUse(cb)
+    caps = [_subst_args(c, ke[2]) for c in fret[2]]
+    # indirect calls of the returned closure: each must go through one captured value whose actual is a closure literal
+    repl = {}
+    for bb, t in cb.calls():
+        if t["callee"].get("path") is not None or "func" not in t:
+            continue
+        fe = expr(cdu, t["func"])
+        base = fe
+        while base[0] == "path":
+            base = base[1]
+        idx = None
+        if base[0] == "capture" and isinstance(base[-1], int):
+            idx = base[-1]
+        elif base[0] == "arg" and base[1] == 1:
+            pth = [p_ for p_ in base[2] if p_ != "deref"]
+            idx = pth[0] if len(pth) == 1 and isinstance(pth[0], int) else None
+        elif base[0] == "capture" and len(caps) == 1:
+            idx = 0
+        if idx is None or idx >= len(caps):
+            return None
+        kname = _closure_of(caps[idx])
+        if kname is None or kname not in facts.bodies:
+            return None
+        ty = t["callee"].get("ty")
+        if repl.setdefault(ty, kname) != kname:
+            return None
+    if not repl:
+        return None
+    ret = expr_place(cdu, {"local": 0, "proj": []})
+
+    def sub(e):
+        if not isinstance(e, tuple):
+            return e
+        if e and e[0] == "call" and e[1] in repl:
+            kb = facts.bodies[repl[e[1]]]
+            kret = expr_place(DefUse(kb), {"local": 0, "proj": []})
+            args = (("env",),) + tuple(sub(a) for a in e[2])
+            return _subst_args(kret, args)
+        return tuple(sub(x) if isinstance(x, tuple) else x for x in e)
+    return inline_expr(facts, sub(ret))
+
+
 def sort_call_info(facts, body, du, t, caps=None):
     """for a sort* call: (method, field, dir, quality, why)"""
     m = t["callee"].get("name")
@@ -190,12 +252,16 @@ def sort_call_info(facts, body, du, t, caps=None):
         # closure aggregate: find its name from the def
         r = du.root(t["args"][1])
         clos = r[1]["rv"].get("closure") if r[0] == "rv" else None
-    if clos is None or clos not in facts.bodies:
-        return (m, None, 0, "unknown", "key is not a closure literal: %s" % show(ke))
-    cb = facts.bodies[clos]
-    cdu = DefUse(cb)
     from ..mirq import inline_expr
-    ret = inline_expr(facts, expr_place(cdu, {"local": 0, "proj": []}))
+    ret = None
+    if clos is None and ke[0] == "call" and ke[1] in facts.bodies:
+        ret = _factory_closure(facts, ke)
+    if ret is None:
+        if clos is None or clos not in facts.bodies:
+            return (m, None, 0, "unknown", "key is not a closure literal: %s" % show(ke))
+        cb = facts.bodies[clos]
+        cdu = DefUse(cb)
+        ret = inline_expr(facts, expr_place(cdu, {"local": 0, "proj": []}))
     if caps:
         ret = _specialise(facts, ret, caps)
     if m in ("sort_by", "sort_unstable_by"):
@@ -297,6 +363,8 @@ def run(facts, rep, tier):
     for bb, t in pb.calls():
         if t["callee"].get("name") != "collect" or t["dest"]["local"] == vec:
             continue
+        if "Vec<" not in pb.locals[t["dest"]["local"]]["ty"]["s"]:
+            continue        # collected into a String / other sink: that is the rendering of the rows, not a new row list
         names = []
         maps = []
         r = du.root(t["args"][0])
